@@ -14,17 +14,17 @@ CHECKS = {
  "C02": ("5.C02", "crash-point enumeration per sampled scenario (process killed at every call boundary) + validity oracle + follow-up battery by fresh processes + clock jumps for age-based reclaim",
          "Crash points are enumerated completely per scenario; scenarios (front-end x pre-state x operation x size) are sampled by seed.",
          "a crash is a process death (kernel state survives); SimFs semantics; the reference battery"),
- "C03": ("5.C03", "trace oracle (per-inode dirty bit at publication, mode, immutability) + enumeration of every fsync failing in turn",
-         "Publishing paths are sampled by seed; for each, every fsync call of the fault-free trace is failed with each of EIO/ENOSPC/EDQUOT.",
+ "C03": ("5.C03", "trace oracle (per-inode dirty bit at publication, mode, immutability) + enumeration of every fsync, publication and preparation call failing in turn + a concurrent ride-along",
+         "Publishing paths are sampled by seed; for each, every fsync call of the fault-free trace is failed with each of EIO/ENOSPC/EDQUOT, every publication (rename/link onto a key) once with each of five errnos, and every preparation call (utimens/chmod/lstat) once with EIO.",
          "durability judged on call order and a dirty bit cleared by a successful fsync; power loss not simulated"),
  "C04": ("5.C04", "seeded schedule search + exact Wing-Gong linearizability check against a sequential register (ensure modelled as its non-atomic composition)",
-         "Sampled interleavings of <=9-operation histories; the linearizability search itself is exact.",
+         "Sampled interleavings of <=9-operation histories (incl. maintenance that never evicts and a two-hour stall of everybody); the linearizability search itself is exact.",
          "invoke/return stamps from the simulator's global step counter; SimFs link/rename/open atomicity"),
  "C05": ("5.C05", "seeded schedule search with an adversary participant deleting published files and stale-handle (ESTALE-for-ENOENT) mode; oracle: every operation Ok, no panic",
          "Sampled interleavings with capacity 0-2 so that every write maintains; rare-branch probes are counted in the evidence.",
          "the adversary deletes published files only; simulated time stays below the temp-file age limit"),
  "C06": ("5.C06", "seeded prefix search, then solo scheduling of one participant with all peers frozen (or killed); step bound, watchdog for in-process waits, lock-primitive interception",
-         "Sampled schedule prefixes (1-120 steps) and survivors; the bound is fixed in the harness, not calibrated at run time.",
+         "Sampled schedule prefixes (1-120 steps) and survivors, incl. writes whose source names no file (bounded failure); the bound is fixed in the harness, not calibrated at run time.",
          "freezes happen at filesystem-call boundaries; a 10 s wall-clock watchdog converts an in-process wait into a violation"),
  "C07": ("5.C07", "seeded directory populations and maintenance entry points; independent Second Chance oracle (up to tie order) applied to every maintenance episode cut out of the call trace, plus tree diffs",
          "Sampled populations (0-12 files, many ties) x capacities x 7 entry points x 5 granularities; also every episode of the C11 histories.",
@@ -39,13 +39,13 @@ CHECKS = {
          "Sampled histories (20-200 ops) with solved colliding hashes, scripted trigger/shard draws and diverging load estimates.",
          "same capacity/shard count for all handles on a directory; SimFs semantics"),
  "C12": ("5.C12", "independent reimplementation of the shard mapping (literal constants) vs probe paths and storage location observed in the call trace, across processes with skewed load estimates",
-         "Sampled (hash, secondary hash, n) triples incl. boundary pre-images solved through the modular inverse; several simulated processes.",
+         "Sampled (hash, secondary hash, n) triples incl. boundary pre-images solved through the modular inverse, n up to 2^20+1, independent per-handle capacities; several simulated processes.",
          "mixer constants derived outside Rust from SHA-256 of the documented strings"),
  "C13": ("5.C13", "full configuration matrix run on fresh simulated filesystems; reference model of the stack (returned bytes, judge argument, populate's old, before/after trees)",
          "The stated matrix (9030 points) is enumerated completely in both tiers; swarm dimensions on top of it are sampled (thorough repeats the matrix 60 times).",
          "reference model of the stack; SimFs"),
  "C14": ("5.C14", "full configuration matrix with recording/panicking checkers; success iff all copies equal; comparison-graph connectivity over inode identities; trace shows later levels unopened without a checker",
-         "The stated matrix (30960 points incl. three read-only levels) is enumerated completely; swarm dimensions sampled.",
+         "The stated matrix (41280 points incl. three read-only levels and a fourth, lenient, checker kind) is enumerated completely; swarm dimensions (incl. a vanished scratch directory, a foreign owner, an unopenable copy) sampled.",
          "'first copy against every other' read through the statement's own quantifier (all copies identical)"),
  "C15": ("5.C15", "trace oracle (no mutating call under a read-only root) + before/after snapshots, riding on the C13/C14 matrices and on sequential histories with planted read-only roots",
          "Both matrices once (20x in thorough) with extras (invalid names, missing directories) plus sampled histories.",
